@@ -31,8 +31,13 @@ def valDepth : Val → Nat
   | .fwrap _ _ inner => valDepth inner + 1
   | _ => 1
 
-/-- enough fuel for every `Unwrap` chain of a heap whose cause links point to older cells (`CauseWF`) -/
-def walkFuel (h : Heap) (v : Val) : Nat := valDepth v + h.foldl (fun a n => a + valDepth n.cause + 1) 0 + 1
+/-- what the walk can spend below cell `k`: one step per cell and one per foreign wrapper inside its cause -/
+def costBelow (h : Heap) : Nat → Nat
+  | 0 => 0
+  | k+1 => costBelow h k + valDepth (unwrap h (.ref k)) + 1
+
+/-- fuel for the `errors.Is` walk from `v`; enough in every heap the API builds (`walkFuel_enough`, `Lemmas/ErrsFuel.lean`) -/
+def walkFuel (h : Heap) (v : Val) : Nat := valDepth v + costBelow h h.size + 1
 
 /-- `errors.Is(err, target)`: `err == nil || target == nil` is answered by `err == target` -/
 def errorsIs (h : Heap) (cmp : Val → Bool) (v t : Val) : Walk :=
